@@ -52,6 +52,7 @@ MCNext ==
     \/ \E n \in Nodes : Crash(n) /\ Log([a |-> "Crash", n |-> n])
     \/ \E n \in Nodes : Restart(n) /\ Log([a |-> "Restart", n |-> n])
     \/ \E n \in Nodes, v \in Values : ClientWrite(n, v) /\ Log([a |-> "Write", n |-> n, v |-> v, off |-> lead[n].next + 1, t |-> term[n]])
+    \/ \E n \in Nodes : ClientCancel(n) /\ Log([a |-> "Cancel", n |-> n, offs |-> lead[n].cbq \cup lead[n].wait])
     \/ \E l, f \in Nodes : CursorConnect(l, f) /\ Log([a |-> "Connect", l |-> l, f |-> f])
     \/ \E l, f \in Nodes : CursorSnapshot(l, f) /\ Log([a |-> "Snapshot", l |-> l, f |-> f])
     \/ \E l, f \in Nodes : DeliverAppend(l, f) /\ Log([a |-> "Append", l |-> l, f |-> f])
@@ -88,7 +89,7 @@ Disruptive == \/ (CoElect /\ co.phase \in {"steady", "fencing"})
               \/ CoBecomeLeaderTimeout \/ CoCrash
               \/ \E x, y \in Nodes : CoSwap(x, y)
 SimNext == \/ (MCNext /\ (Disruptive => P(12)))
-           \/ (UNCHANGED vars /\ hist' = Append(hist, [a |-> "Idle"]))
+           \/ (UNCHANGED vars /\ Log([a |-> "Idle"]))
 SimSpec == MCInit /\ [][SimNext]_mcvars
 
 ExportRuns == (Export = "runs" /\ Len(hist) = MaxDepth) => PrintT(<<"RUN", ToJson(hist)>>)
@@ -105,6 +106,9 @@ ScriptNext == /\ Len(hist) < Len(Script)
               /\ MCNext
               /\ Match(hist'[Len(hist')], Script[Len(hist) + 1])
 ScriptSpec == MCInit /\ [][ScriptNext]_mcvars
+\* follow the witness schedule, then continue with a random walk from the state it reaches
+WitnessSimNext == IF Len(hist) < Len(Script) THEN ScriptNext ELSE SimNext
+WitnessSimSpec == MCInit /\ [][WitnessSimNext]_mcvars
 ExportEvery == (Len(hist) > 0) => PrintT(<<"RUN", ToJson(hist)>>)
 
 ----------------------------------------------------------------------------
